@@ -25,6 +25,7 @@ def extra(tier, rng):
     synchronous calls whose callers catch the RuntimeError, followed by further computations on the same thread"""
     import coregen
     res = [coregen.foreign_sync_family(rng) for _ in range(40 if tier == "quick" else 600)]
+    res += [{"special": "resetbetween", "resets": r, "sync": sy} for r in (0, 1, 2) for sy in (False, True)]
     res += [cc.ctxraise_case(w, n, h, sb) for w in ("pause", "resume") for n in (0, 1, 2) for h in (0, 1) for sb in (0, 1)]
     for _ in range(60 if tier == "quick" else 1500):
         c = coregen.gen_case(rng, rng.choice(["sync", "full", "yield"]), ntops=rng.choice([1, 2, 3]))
